@@ -1791,7 +1791,49 @@ func runR95(c *Ctx) {
 		if srcCol == nil {
 			continue
 		}
-		// composite Column literals: group stores by the alloc they fill
+		isOldField := func(v ssa.Value, name string) bool {
+			return fieldPathRootIsParam(v, srcCol) && fieldNameOfLoad(v) == name
+		}
+		isFresh := func(v ssa.Value) bool { return freshSlice(v, map[ssa.Value]bool{}) }
+		// does the guard list say len(new table) == len(old table)?
+		equalLens := func(gs []guard) bool {
+			for _, g := range gs {
+				b, ok := g.Cond.(*ssa.BinOp)
+				if !ok || !(b.Op == token.EQL && g.Val || b.Op == token.NEQ && !g.Val) {
+					continue
+				}
+				lenArg := func(v ssa.Value) ssa.Value {
+					if lc, ok := v.(*ssa.Call); ok && builtinName(lc) == "len" {
+						return lc.Call.Args[0]
+					}
+					return nil
+				}
+				a, bb := lenArg(b.X), lenArg(b.Y)
+				oldSide := func(v, raw ssa.Value) bool {
+					if v != nil && isOldField(v, "values") {
+						return true
+					}
+					// a local holding len(s.values)
+					if lc, ok := raw.(*ssa.Call); ok && builtinName(lc) == "len" && isOldField(lc.Call.Args[0], "values") {
+						return true
+					}
+					return false
+				}
+				newSide := func(v ssa.Value) bool { return v != nil && isFresh(v) }
+				if oldSide(a, b.X) && newSide(bb) || oldSide(bb, b.Y) && newSide(a) {
+					return true
+				}
+			}
+			return false
+		}
+		guardsOfEdge := func(pred, to *ssa.BasicBlock) []guard {
+			gs := dominatingGuards(pred)
+			if iff, ok := pred.Instrs[len(pred.Instrs)-1].(*ssa.If); ok {
+				cond, val := unNot(iff.Cond, true)
+				gs = append(gs, guard{If: iff, Cond: cond, Val: (pred.Succs[0] == to) == val})
+			}
+			return gs
+		}
 		lits := map[*ssa.Alloc]map[string]*ssa.Store{}
 		eachInstr(fn, func(in ssa.Instruction) {
 			st, ok := in.(*ssa.Store)
@@ -1819,100 +1861,118 @@ func runR95(c *Ctx) {
 			if vs == nil || ds == nil {
 				continue
 			}
-			// new table?
-			if fieldPathRootIsParam(vs.Val, srcCol) && fieldNameOfLoad(vs.Val) == "values" {
-				continue // the source's own table
+			if isOldField(vs.Val, "values") || !isFresh(vs.Val) {
+				continue // the source's own table, or not a table built here
 			}
-			if !freshSlice(vs.Val, map[ssa.Value]bool{}) {
-				continue
+			// the data value: a single value, or a phi of alternatives each judged on its edge
+			type alt struct {
+				v  ssa.Value
+				gs []guard
 			}
-			if fieldPathRootIsParam(ds.Val, srcCol) && fieldNameOfLoad(ds.Val) == "data" {
-				// (a) reuse of the data: guarded by equal table lengths
-				key := fnm + "|data reused with a new table"
-				okG := false
-				for _, g := range dominatingGuards(ds.Block()) {
-					b, ok := g.Cond.(*ssa.BinOp)
-					if !ok || !(b.Op == token.EQL && g.Val || b.Op == token.NEQ && !g.Val) {
-						continue
+			var alts []alt
+			if phi, ok := ds.Val.(*ssa.Phi); ok {
+				for k, e := range phi.Edges {
+					alts = append(alts, alt{e, guardsOfEdge(phi.Block().Preds[k], phi.Block())})
+				}
+			} else {
+				alts = append(alts, alt{ds.Val, dominatingGuards(ds.Block())})
+			}
+			for _, a := range alts {
+				if isOldField(a.v, "data") {
+					key := fnm + "|data reused with a new table"
+					if equalLens(a.gs) {
+						c.ok(key, p.instrPos(ds), "only when the new table has as many entries as the old one")
+					} else {
+						c.bad(key, p.instrPos(ds), "the source's codes are kept although the new value table may have fewer entries (merged values): codes then name the wrong strings or lie outside the table")
 					}
-					lx, okx := b.X.(*ssa.Call)
-					ly, oky := b.Y.(*ssa.Call)
-					if !okx || !oky || builtinName(lx) != "len" || builtinName(ly) != "len" {
-						continue
+					continue
+				}
+				key := fnm + "|re-coded data"
+				if !isFresh(a.v) {
+					c.undecided(key, p.instrPos(ds), "the data of the new column is neither the source's nor allocated here")
+					continue
+				}
+				// the loop that fills it: evaluate one iteration in the worlds null / not null
+				var fill *ssa.Store
+				eachInstr(fn, func(in ssa.Instruction) {
+					st, ok := in.(*ssa.Store)
+					if !ok {
+						return
 					}
-					a, bb := lx.Call.Args[0], ly.Call.Args[0]
-					isOld := func(v ssa.Value) bool { return fieldPathRootIsParam(v, srcCol) && fieldNameOfLoad(v) == "values" }
-					isNew := func(v ssa.Value) bool { return freshSlice(v, map[ssa.Value]bool{}) }
-					if isOld(a) && isNew(bb) || isOld(bb) && isNew(a) {
-						okG = true
+					if ia, ok := st.Addr.(*ssa.IndexAddr); ok && (rootValue(ia.X) == rootValue(a.v) || sameValue2(ia.X, a.v, 0)) {
+						fill = st
+					}
+				})
+				var loop *loopInfo
+				if fill != nil {
+					for _, li := range loopsOf(fn) {
+						if inLoop(li, fill.Block()) {
+							l := li
+							loop = &l
+						}
 					}
 				}
-				if okG {
-					c.ok(key, p.instrPos(ds), "only when the new table has as many entries as the old one")
+				if fill == nil || loop == nil {
+					c.bad(key, p.instrPos(ds), "the new data slice is never filled in a loop over the source's cells")
+					continue
+				}
+				problems := []string{}
+				for _, isNull := range []bool{true, false} {
+					pe := &pathExec{fn: fn, start: loop.header}
+					pe.stopAt = func(b *ssa.BasicBlock) bool { return b == loop.header }
+					first := true
+					var cell ssa.Value
+					var stored ssa.Value
+					atom := func(x ssa.Value) (bool, bool) {
+						if call, ok := x.(*ssa.Call); ok && isNullPredicate(call) && len(call.Call.Args) > 0 {
+							cell = call.Call.Args[0]
+							return isNull, true
+						}
+						if b, ok := x.(*ssa.BinOp); ok && b.Op == token.LSS && first {
+							first = false
+							return true, true // the loop condition: there is a cell
+						}
+						return false, false
+					}
+					pe.oracle = func(pe *pathExec, cond ssa.Value) (bool, bool) { return pe.evalBool(cond, atom) }
+					pe.onInstr = func(pe *pathExec, in ssa.Instruction) {
+						if st, ok := in.(*ssa.Store); ok {
+							if ia, ok := st.Addr.(*ssa.IndexAddr); ok && (rootValue(ia.X) == rootValue(a.v) || sameValue2(ia.X, a.v, 0)) {
+								stored = pe.resolve(st.Val)
+							}
+						}
+					}
+					pe.run()
+					world := "a null cell"
+					if !isNull {
+						world = "a non-null cell"
+					}
+					switch {
+					case pe.stopped == nil && stored == nil:
+						problems = append(problems, "the iteration for "+world+" cannot be evaluated")
+					case stored == nil:
+						problems = append(problems, world+" stores nothing")
+					case isNull:
+						if !(cell != nil && sameValue2(stored, pe.resolve(cell), 0)) && !isNullConst(stored) {
+							problems = append(problems, "a null cell does not stay null ("+describe(stored)+" is stored)")
+						}
+					default:
+						okT := false
+						if ld, ok := stored.(*ssa.UnOp); ok && ld.Op == token.MUL {
+							if ia2, ok := ld.X.(*ssa.IndexAddr); ok && cell != nil && sameValue2(stripConvInt(ia2.Index), pe.resolve(cell), 0) && isFresh(ia2.X) {
+								okT = true
+							}
+						}
+						if !okT {
+							problems = append(problems, "a non-null cell is not translated through the table of new codes ("+describe(stored)+" is stored)")
+						}
+					}
+				}
+				if len(problems) == 0 {
+					c.ok(key, p.instrPos(fill), "null stays null, every other cell is translated through the table of new codes")
 				} else {
-					c.bad(key, p.instrPos(ds), "the source's codes are kept although the new value table may have fewer entries (merged values): codes then name the wrong strings or lie outside the table")
+					c.bad(key, p.instrPos(fill), strings.Join(problems, "; "))
 				}
-				continue
-			}
-			// (b) re-coded data
-			key := fnm + "|re-coded data"
-			if !freshSlice(ds.Val, map[ssa.Value]bool{}) {
-				c.undecided(key, p.instrPos(ds), "the data of the new column is neither the source's nor allocated here")
-				continue
-			}
-			nullStore, valStore := false, false
-			bad := ""
-			eachInstr(fn, func(in ssa.Instruction) {
-				st, ok := in.(*ssa.Store)
-				if !ok {
-					return
-				}
-				ia, ok := st.Addr.(*ssa.IndexAddr)
-				if !ok || !sameValue2(ia.X, ds.Val, 0) && rootValue(ia.X) != rootValue(ds.Val) {
-					return
-				}
-				underNull, underNonNull := false, false
-				var cell ssa.Value
-				for _, g := range dominatingGuards(st.Block()) {
-					if call, ok := g.Cond.(*ssa.Call); ok && isNullPredicate(call) && len(call.Call.Args) > 0 {
-						cell = call.Call.Args[0]
-						if g.Val {
-							underNull = true
-						} else {
-							underNonNull = true
-						}
-					}
-				}
-				switch {
-				case underNull:
-					if sameValue2(st.Val, cell, 0) || isNullConst(st.Val) {
-						nullStore = true
-					} else {
-						bad = "a null cell does not stay null at " + p.instrPos(st)
-					}
-				case underNonNull:
-					ok2 := false
-					if ld, ok := st.Val.(*ssa.UnOp); ok && ld.Op == token.MUL {
-						if ia2, ok := ld.X.(*ssa.IndexAddr); ok && sameValue2(stripConvInt(ia2.Index), cell, 0) && freshSlice(ia2.X, map[ssa.Value]bool{}) {
-							ok2 = true
-						}
-					}
-					if ok2 {
-						valStore = true
-					} else {
-						bad = "a non-null cell is not translated through the table of new codes at " + p.instrPos(st)
-					}
-				default:
-					bad = "a cell is stored without regard to its nullness at " + p.instrPos(st)
-				}
-			})
-			switch {
-			case bad != "":
-				c.bad(key, p.instrPos(ds), bad)
-			case !nullStore || !valStore:
-				c.bad(key, p.instrPos(ds), fmt.Sprintf("the re-coding loop is incomplete (null cells stored: %v, translated cells stored: %v)", nullStore, valStore))
-			default:
-				c.ok(key, p.instrPos(ds), "null stays null, every other cell is translated through the table of new codes")
 			}
 		}
 	}
